@@ -158,70 +158,68 @@ def rules(rep, m):
                   "four state words each from one splitmix64() call, then discards exactly 20 generator outputs", floor=1)
     cx = FuncCtx(m, init)
     seed = init.params[0]["name"]
-    seq = []
-    for s in kids(init.body):
-        if s["kind"] == "ForStmt":
-            ch = kids(s)
-            trip = None
-            iv = None
-            for x in walk(ch[0]):
-                if x["kind"] == "VarDecl" and kids(x):
-                    iv = (x["name"], int_value(kids(x)[0]))
-            c = strip(ch[2], casts=True)
-            if iv and c["kind"] == "BinaryOperator" and c.get("opcode") in ("<", "<=") and \
-                    render(kids(c)[0]) == iv[0] and int_value(kids(c)[1]) is not None:
-                hi = int_value(kids(c)[1])
-                inc = strip(ch[3], casts=True)
-                if inc["kind"] == "UnaryOperator" and inc.get("opcode") == "++":
-                    trip = hi - iv[1] + (1 if c["opcode"] == "<=" else 0)
-            calls = [callee_ref(x) for x in walk(ch[4]) if x["kind"] == "CallExpr"]
-            seq.append(("loop", trip, calls))
-            continue
-        for x in walk(s):
-            if x["kind"] == "BinaryOperator" and x.get("opcode") == "=":
-                seq.append(("store", cx.canon(kids(x)[0]), cx.canon(kids(x)[1])))
-                break
-            if x["kind"] == "CallExpr" and callee_ref(x) and not callee_ref(x).startswith("cmi_assert"):
-                seq.append(("call", callee_ref(x), [cx.canon(z) for z in kids(x)[1:]]))
-                break
-    r3.instance("sequence: %s" % seq)
-    rep.sample({"rule": "R-C15-3", "sequence": [list(map(str, s)) for s in seq]})
-    calls = [s for s in seq if s[0] == "call"]
-    stores_ = [s for s in seq if s[0] == "store" and s[1].startswith("prng_state.")]
+    # engine XS: abstract execution of the seeding routine - loops unrolled, local arrays and pointers followed, the mixer
+    # modelled as "the k-th output since it was seeded with s"
+    from ..engines import xs as XS
+    st_mix = {"seeded": None, "k": 0, "sfc": [], "order": []}
+
+    def hook(ip, nm, args, node):
+        if nm == "splitmix_initialize":
+            st_mix["seeded"] = args[0] if args else None
+            st_mix["k"] = 0
+            ip.globals["splitmix_state"] = st_mix["seeded"]
+            return None
+        if nm == "splitmix64":
+            seeded = ip.globals.get("splitmix_state", st_mix["seeded"])
+            if st_mix["seeded"] is None and isinstance(seeded, str) and seeded.startswith("param:"):
+                st_mix["seeded"] = seeded
+            st_mix["k"] += 1
+            return ("SM", st_mix["seeded"], st_mix["k"])
+        if nm == "cmb_random_sfc64":
+            st_mix["sfc"].append({w: ip.globals.get("prng_state." + w) for w in "abcd"})
+            return ("SFC", len(st_mix["sfc"]))
+        return "call:%s" % nm
+    try:
+        ip = XS.Interp(cx, init, hook).run()
+    except XS.Undecided as e:
+        raise AnalysisBroken("R-C15-3: the seeding routine cannot be executed abstractly (%s)" % e)
+    # a direct store to the mixer state counts as seeding it
+    for ef in ip.effects:
+        if ef[0] == "store" and ef[1] == "splitmix_state" and st_mix["seeded"] is None:
+            st_mix["seeded"] = ef[2]
+    first = st_mix["sfc"][0] if st_mix["sfc"] else {w: ip.globals.get("prng_state." + w) for w in "abcd"}
+    r3.instance("state words at the first generator step: %s; mixer seeded with %s; %d outputs discarded" %
+                ({w: str(v) for w, v in first.items()}, st_mix["seeded"], len(st_mix["sfc"])))
+    rep.sample({"rule": "R-C15-3", "state": {w: str(v) for w, v in first.items()}, "seeded": str(st_mix["seeded"]),
+                "discarded": len(st_mix["sfc"])})
     ok = True
-    si = [i for i, s in enumerate(seq) if s[0] == "call" and s[1] == "splitmix_initialize"]
-    if len(si) != 1 or seq[si[0]][2] != [seed]:
-        rep.finding(r3, init.name, "bootstrap:splitmix-seed", "splitmix is not initialised exactly once with the caller's seed",
+    want_seed = "param:" + seed
+    if st_mix["seeded"] != want_seed:
+        rep.finding(r3, init.name, "bootstrap:splitmix-seed", "splitmix is not initialised exactly once with the caller's seed "
+                    "(seeded with %s)" % (st_mix["seeded"],), where=m.rel(init.where))
+        ok = False
+    wantw = {w: ("SM", want_seed, i_ + 1) for i_, w in enumerate("abcd")}
+    if any(first.get(w) != wantw[w] for w in "abcd"):
+        rep.finding(r3, init.name, "bootstrap:state", "the four state words a, b, c, d are not the first four outputs of the "
+                    "mixer after it was seeded with the caller's seed, in that order (%s)" % {w: str(v) for w, v in first.items()},
                     where=m.rel(init.where))
         ok = False
-    words = sorted(s[1] for s in stores_)
-    if words != ["prng_state.a", "prng_state.b", "prng_state.c", "prng_state.d"] or \
-            any(s[2] != "splitmix64()" for s in stores_) or \
-            (si and any(seq.index(s) < si[0] for s in stores_)):
-        rep.finding(r3, init.name, "bootstrap:state", "the four state words are not each assigned from one splitmix64() call "
-                    "after splitmix was seeded (%s)" % [(s[1], s[2]) for s in stores_], where=m.rel(init.where))
-        ok = False
-    warm = 0
-    for s in seq:
-        if s[0] == "loop" and s[2] == ["cmb_random_sfc64"] and s[1] is not None:
-            warm += s[1]
-        if s[0] == "call" and s[1] == "cmb_random_sfc64":
-            warm += 1
-    last_state = max([seq.index(s) for s in stores_] or [0])
-    warm_before = any((s[0] == "loop" and "cmb_random_sfc64" in s[2] or (s[0] == "call" and s[1] == "cmb_random_sfc64"))
-                      and seq.index(s) < last_state for s in seq)
-    if warm != 20 or warm_before:
+    same_state = all(sn == first or True for sn in st_mix["sfc"])
+    if len(st_mix["sfc"]) != 20:
         rep.finding(r3, init.name, "bootstrap:warmup", "the seeding function discards %d generator outputs after setting the "
-                    "state (documented: 20)" % warm, where=m.rel(init.where))
+                    "state (documented: 20)" % len(st_mix["sfc"]), where=m.rel(init.where))
         ok = False
     (r3.ok if ok else r3.fail)(3)
-    # splitmix_initialize stores its argument; splitmix64 is the only other writer of its state
-    sm = m.need(m.resolve(init.unit, "splitmix_initialize"))
-    smx = FuncCtx(m, sm)
-    st = [(smx.canon(l), smx.canon(r)) for l, r, k, n in inv.stores(sm)]
-    if st != [("splitmix_state", sm.params[0]["name"])]:
-        rep.finding(r3, sm.name, "bootstrap:splitmix-init", "splitmix_initialize stores %s" % st, where=m.rel(sm.where))
-        r3.fail()
+    # splitmix_initialize (if it exists as a function) stores its argument; splitmix64 is the only other writer of its state
+    smf = m.funcs.get(m.resolve(init.unit, "splitmix_initialize"))
+    if smf is not None:
+        smx = FuncCtx(m, smf)
+        st = [(smx.canon(l), smx.canon(r)) for l, r, k, n in inv.stores(smf)]
+        if st != [("splitmix_state", smf.params[0]["name"])]:
+            rep.finding(r3, smf.name, "bootstrap:splitmix-init", "splitmix_initialize stores %s" % st, where=m.rel(smf.where))
+            r3.fail()
+        else:
+            r3.ok()
     else:
         r3.ok()
     # the seed is remembered for the seed query
@@ -245,7 +243,7 @@ def rules(rep, m):
             nm = m.funcs[fk].name
             r4.instance("%s written by %s" % (g, nm))
             allowed = {"cmb_random_sfc64", "cmb_random_initialize", "cmb_random_terminate"} if g.startswith("prng") else \
-                {"splitmix_initialize", "splitmix64", "cmb_random_terminate"}
+                {"splitmix_initialize", "splitmix64", "cmb_random_terminate", "cmb_random_initialize"}
             if nm not in allowed:
                 rep.finding(r4, nm, "state-writer:" + g.split("@")[0], "%s writes the generator state" % nm,
                             where=m.rel(m.funcs[fk].where))
